@@ -474,3 +474,59 @@ pub proof fn lemma_all_no_multisub_elem(s: Seq<ast::Statement>, n: int, k: int)
     ensures no_multisub(s[k])
     decreases n
 { if k < n - 1 { lemma_all_no_multisub_elem(s, n - 1, k); } }
+
+// ---- C13 (statement conservation): lifting puts every source statement into the graph exactly once — in count form:
+// the number of IR statements over all blocks grows by exactly the number of statement nodes of the source statement
+// (one per plain statement, one branch statement per `if` and per `while`)
+pub open spec fn total(v: Seq<BasicBlock>, n: int) -> int
+    decreases n
+{
+    if n <= 0 || n > v.len() { 0 } else { total(v, n - 1) + bb_stmts(v[n - 1]).len() }
+}
+pub open spec fn tot(v: Seq<BasicBlock>) -> int { total(v, v.len() as int) }
+pub open spec fn nstmts(s: ast::Statement) -> nat
+    decreases s
+{
+    match s {
+        ast::Statement::Block { stmts, .. } => seq_nstmts(stmts@, stmts@.len() as int),
+        ast::Statement::InitializationBlock { initializations, .. } => seq_nstmts(initializations@, initializations@.len() as int),
+        ast::Statement::While { stmt, .. } => 1 + nstmts(*stmt),
+        ast::Statement::IfThenElse { if_case, else_case, .. } => match else_case { Some(e) => 1 + nstmts(*if_case) + nstmts(*e), None => 1 + nstmts(*if_case) },
+        _ => 1,
+    }
+}
+pub open spec fn seq_nstmts(l: Seq<ast::Statement>, n: int) -> nat
+    decreases l, n
+{
+    if n <= 0 || n > l.len() { 0 } else { seq_nstmts(l, n - 1) + nstmts(l[n - 1]) }
+}
+pub open spec fn same_lens(v: Seq<BasicBlock>, w: Seq<BasicBlock>, n: int) -> bool {
+    n <= v.len() && n <= w.len() && forall|k: int| 0 <= k < n ==> bb_stmts(#[trigger] w[k]).len() == bb_stmts(v[k]).len()
+}
+pub proof fn lemma_total_lens(v: Seq<BasicBlock>, w: Seq<BasicBlock>, n: int)
+    requires same_lens(v, w, n), n >= 0
+    ensures total(v, n) == total(w, n)
+    decreases n
+{
+    if n > 0 { assert(same_lens(v, w, n - 1)); lemma_total_lens(v, w, n - 1); assert(bb_stmts(w[n - 1]).len() == bb_stmts(v[n - 1]).len()); }
+}
+// a new empty block at the end, the statement counts of the others unchanged
+pub proof fn lemma_tot_new_block(v: Seq<BasicBlock>, w: Seq<BasicBlock>)
+    requires w.len() == v.len() + 1, same_lens(v, w, v.len() as int), bb_stmts(w.last()).len() == 0
+    ensures tot(w) == tot(v)
+{
+    lemma_total_lens(v, w, v.len() as int);
+}
+// d more statements in the last block, the others unchanged
+pub proof fn lemma_tot_last(v: Seq<BasicBlock>, w: Seq<BasicBlock>, d: int)
+    requires w.len() == v.len(), v.len() > 0, same_lens(v, w, v.len() - 1), bb_stmts(w.last()).len() == bb_stmts(v.last()).len() + d
+    ensures tot(w) == tot(v) + d
+{
+    lemma_total_lens(v, w, v.len() - 1);
+}
+pub proof fn lemma_tot_same(v: Seq<BasicBlock>, w: Seq<BasicBlock>)
+    requires w.len() == v.len(), same_lens(v, w, v.len() as int)
+    ensures tot(w) == tot(v)
+{
+    lemma_total_lens(v, w, v.len() as int);
+}
